@@ -9,6 +9,7 @@ import (
 	"path/filepath"
 	"runtime"
 	"sync"
+	"sync/atomic"
 	"time"
 
 	"github.com/safing/portbase/modules"
@@ -33,7 +34,19 @@ type c05Spec struct {
 	Mods          []*c05Mod   `json:"mods"`
 	Hooks         []*hookRule `json:"hooks,omitempty"`
 	WaitHit       string      `json:"wait_hit,omitempty"` // pair plans: latch the driver waits for before it triggers the stop
+	DoneStorm     *doneStorm  `json:"done_storm,omitempty"`
 	NeverReturn   bool        `json:"never_return,omitempty"`
+}
+
+// doneStorm: before any work item is launched, N signalled microtasks of a module are
+// each concluded by Callers goroutines that call the same done() at the same moment
+// (spinning on a barrier). done() must take effect once; if it takes effect twice the
+// module's microtask counter goes negative and work running at the next stop is not
+// waited for - which P2 observes on the items of the scenario.
+type doneStorm struct {
+	Mod     string `json:"mod"`
+	N       int    `json:"n"`
+	Callers int    `json:"callers"`
 }
 
 type c05Mod struct {
@@ -136,7 +149,7 @@ func c05Child(dir string, raw []byte) {
 	h.hs = &hookSet{log: h.log, lat: h.lat, rules: spec.Hooks, rnd: vlib.NewRand(spec.Seed, "c05/hookdelay", uint64(spec.Case))}
 	h.hs.install("modules.stop.ctrlset", "modules.stop.flagged", "modules.stop.cancelled", "modules.stop.timeout",
 		"modules.stop.check", "modules.worker.dec", "modules.task.defer", "modules.task.prelock", "modules.mt.conclude",
-		"modules.ctrlfn.done") // (the last one does not exist yet: requested hook point)
+		"modules.ctrlfn.done", "modules.ctrlfn.sent", "modules.task.cleared")
 
 	// internal watchdog: keep the event log if the scenario wedges
 	go func() {
@@ -228,6 +241,9 @@ func (h *c05H) run() {
 
 	// cycle 1 work
 	h.setPhase("launch-1")
+	if sp.DoneStorm != nil {
+		h.doneStorm(sp.DoneStorm)
+	}
 	h.launchCycle(1)
 
 	if sp.WaitHit != "" {
@@ -492,6 +508,44 @@ func (h *c05H) launch(it *c05Item) {
 	default:
 		h.note("unknown item kind %s", it.Kind)
 	}
+}
+
+func (h *c05H) doneStorm(ds *doneStorm) {
+	m := h.mods[ds.Mod]
+	if m == nil {
+		return
+	}
+	for i := 0; i < ds.N; i++ {
+		var done func()
+		switch i % 3 {
+		case 0:
+			done = m.SignalHighPriorityMicroTask()
+		case 1:
+			done = m.SignalMicroTask(mtMaxDelay)
+		default:
+			done = m.SignalLowPriorityMicroTask(mtMaxDelay)
+		}
+		var ready atomic.Int32
+		var goFlag atomic.Bool
+		var wg sync.WaitGroup
+		for c := 0; c < ds.Callers; c++ {
+			wg.Add(1)
+			go func() {
+				defer wg.Done()
+				ready.Add(1)
+				for !goFlag.Load() {
+				}
+				done()
+			}()
+		}
+		for int(ready.Load()) < ds.Callers {
+			runtime.Gosched()
+		}
+		goFlag.Store(true)
+		wg.Wait()
+	}
+	_, _, mt := m.VerifModuleCounts()
+	h.log.Rec("donestorm", ds.Mod, "", map[string]any{"n": ds.N, "callers": ds.Callers, "module_microtask_count_after": int(mt)})
 }
 
 func isQueueTask(k string) bool { return k == kTaskQ || k == kTaskP || k == kTaskA || k == kTaskS }
